@@ -932,8 +932,12 @@ class LayoutSwapper(LayoutManager):
 
         self._maxDims = max([1 if isinstance(x, int) else len(x)
                             for x in nprocs])
-        self._largestLayoutManager, x = max(
-            enumerate(self._nDims), key=operator.itemgetter(1))
+        # The most distributed handler provides the communicators for all the
+        # others. If process-grid extents equal to 1 make several handlers
+        # equally distributed, the one described on the most axes is used
+        nAxes = [1 if isinstance(x, int) else len(x) for x in nprocs]
+        self._largestLayoutManager = max(range(len(self._nDims)),
+                                         key=lambda i: (self._nDims[i], nAxes[i]))
 
         self._totProcs = np.prod(nprocs[self._largestLayoutManager])
 
@@ -958,7 +962,7 @@ class LayoutSwapper(LayoutManager):
         # Find the order of the layout types so it is clear which transposes
         # are valid (all communicators should be used in 1 of the handlers
         sortOrder = sorted(range(len(self._nDims)),
-                           key=self._nDims.__getitem__, reverse=True)
+                           key=lambda i: (self._nDims[i], nAxes[i]), reverse=True)
 
         # Create the LayoutHandlers
         self._managers = [None for i in range(self._nLayoutManagers)]
